@@ -13,7 +13,8 @@ import (
 // variable-size Nicira actions (conntrack with nested actions, note, learn) are attached to their list while still
 // empty and grow afterwards through their own adders/fields. Returns the number of actions that grew late.
 func BuildMessageLate(r *rec.Rec, deep ...bool) (util.Message, int, error) {
-	// deep: NAT actions nested in a conntrack action are in turn attached to it without their ranges and get them
+	// deep[1]: the message is encoded once before anything grows.
+	// deep[0]: NAT actions nested in a conntrack action are in turn attached to it without their ranges and get them
 	// afterwards (growth two levels down; the conntrack action caches its length when the NAT is attached)
 	goDeep := len(deep) > 0 && deep[0]
 	stripped := r.Clone()
@@ -42,6 +43,11 @@ func BuildMessageLate(r *rec.Rec, deep ...bool) (util.Message, int, error) {
 	msg, err := BuildMessage(stripped)
 	if err != nil {
 		return nil, 0, err
+	}
+	if len(deep) > 1 && deep[1] {
+		// the message is sized and encoded once before its actions grow (a message sent, then extended and sent again)
+		msg.Len()
+		msg.MarshalBinary()
 	}
 	var lists [][]of.Action
 	collectBuilt(msg, &lists)
